@@ -141,6 +141,66 @@ def run_alloc_null(res, ast):
     return nsites
 
 
+def run_alloc_layout(res, ast):
+    """ALLOC-LAYOUT: the byte size of a tape allocation is computed by an overflow-checked constructor from the element count
+    that becomes self.size - so an absurdly large request panics (clean) instead of wrapping into a small buffer that the
+    size field then misdescribes."""
+    import pm
+    res.rule("ALLOC-LAYOUT", "every allocation of the tape passes a layout built by Layout::array::<C>(count) (overflow-checked, unwrapped), the count is the value "
+             "stored into self.size, and every dealloc of the tape uses Layout::array::<C>(self.size): a request whose byte size overflows panics instead "
+             "of allocating a wrapped (too small) block", floor=3, what="layout sites")
+    fns = {f["name"]: f["node"] for f in ast.find_fns(RUNTIME) if "Memory" in f["container"] and "mod tests" not in f["container"] and f["node"].get("body")}
+    nsite = 0
+    for name, fn in fns.items():
+        body = fn["body"]
+        lets = {}
+        for l in walk_t(body, "Local"):
+            if l["pat"]["t"] == "PIdent" and l.get("init") is not None:
+                lets[l["pat"]["name"]] = l["init"]
+
+        def resolve(e, depth=0):
+            e = strip_paren(e)
+            n = path_name(e)
+            if n in lets and depth < 4:
+                return resolve(lets[n], depth + 1)
+            return e
+
+        def checked_array(e):
+            """-> the count expression if e is Layout::array::<C>(count).unwrap()/expect(..), else None"""
+            b_ = pm.match_expr(e, "Layout::array::<C>(__e_n).unwrap()") or pm.match_expr(e, "Layout::array::<C>(__e_n).expect(__e_m)") \
+                or pm.match_expr(e, "std::alloc::Layout::array::<C>(__e_n).unwrap()") or pm.match_expr(e, "alloc::Layout::array::<C>(__e_n).unwrap()")
+            return b_["__e_n"] if b_ else None
+        size_assigned = [a["right"] for a in walk_t(body, "Assign") if pm.match_expr(strip_paren(a["left"]), "self.size") is not None]
+        for c in walk_t(body, "Call"):
+            cn = (path_name(strip_paren(c["func"])) or "").split("::")[-1]
+            if cn in ("alloc", "alloc_zeroed") and len(c["args"]) == 1:
+                nsite += 1
+                lay = resolve(c["args"][0])
+                cnt = checked_array(lay)
+                key = f"{RUNTIME}|Memory::{name}|{cn}"
+                w = where(RUNTIME, c, f"Memory::{name}")
+                if cnt is None:
+                    res.bad("ALLOC-LAYOUT", key, w, f"the layout of the new tape block is `{ast.src1(RUNTIME, lay)}`: it must be Layout::array::<C>(count).unwrap() "
+                            "(an unchecked `count * size_of` wraps for huge requests and allocates too little)")
+                    continue
+                same = size_assigned and all(pm._eq(strip_paren(x), strip_paren(cnt)) or (path_name(strip_paren(x)) is not None and path_name(strip_paren(x)) == path_name(strip_paren(cnt)))
+                                             for x in size_assigned)
+                res.check(bool(same), "ALLOC-LAYOUT", key, w, f"the block is allocated for `{ast.src1(RUNTIME, cnt)}` cells but self.size is set to "
+                          f"`{ast.src1(RUNTIME, size_assigned[0]) if size_assigned else '(nothing)'}`")
+            if cn in ("realloc",):
+                nsite += 1
+                res.bad("ALLOC-LAYOUT", f"{RUNTIME}|Memory::{name}|realloc", where(RUNTIME, c, f"Memory::{name}"), "realloc of the tape is not analysed (its new size is a raw byte count)")
+            if cn == "dealloc" and len(c["args"]) == 2:
+                nsite += 1
+                lay = resolve(c["args"][1])
+                cnt = checked_array(lay)
+                okd = cnt is not None and pm.match_expr(strip_paren(cnt), "self.size") is not None
+                res.check(okd, "ALLOC-LAYOUT", f"{RUNTIME}|Memory::{name}|dealloc", where(RUNTIME, c, f"Memory::{name}"),
+                          f"the tape is freed with layout `{ast.src1(RUNTIME, lay)}`, it must be Layout::array::<C>(self.size).unwrap() (the layout it was allocated with)")
+    if nsite == 0:
+        res.bad("ALLOC-LAYOUT", f"{RUNTIME}|none", RUNTIME, "no allocation of the tape found")
+
+
 # --------------------------------------------------------------------------- bounds facts (flow analysis)
 
 class BoundsFlow:
